@@ -4,7 +4,7 @@ import "strings"
 
 func init() {
 	register("C11", runC11, propMeta{
-		Explanation: "Decides structural necessary conditions of 'the result map is exactly the set of rules that returned in this call', for every execute method and every rule set: (M1) the store g.returnResult = make(...) dominates every rule execution, go statement, addResult call and every return other than the rb==nil one, so nothing of an earlier call survives and no nil map is written; (M2) every RuleEntity.Execute call site has its returned-flag tested on all paths and the true edge calls addResult with the RuleName of the same receiver and the value of the same call, and no other addResult call exists; (M3) in internal/base the third result of every (value, error, flag) evaluator is false, a child's flag passed through, or true only in ReturnStatement/BreakStmt/ContinueStmt, and a true flag in ReturnStatement.Evaluate is returned only with a nil error; (M4) RuleEntity.Execute maps the zero reflect.Value to a nil interface; and nil is handed up only for that zero value, v.Interface() otherwise; (M5) addResult holds g.lock around the map write and is the only writer of the map; (M6) in IfStmt.Evaluate a true condition evaluates its branch and an existing else runs when all conditions are false, and in ForStmt.Evaluate and ForRangeStmt.Evaluate every pass of the loop evaluates the body, so a `return` placed in a branch or a loop body is reached. Not decided: the values themselves.",
+		Explanation: "Decides structural necessary conditions of 'the result map is exactly the set of rules that returned in this call', for every execute method and every rule set: (M1) the store g.returnResult = make(...) dominates every rule execution, go statement, addResult call and every return other than the rb==nil one, so nothing of an earlier call survives and no nil map is written; (M2) every RuleEntity.Execute call site has its returned-flag tested on all paths and the true edge calls addResult with the RuleName of the same receiver and the value of the same call, and no other addResult call exists; (M3) in internal/base the third result of every (value, error, flag) evaluator is false, a child's flag passed through, or true only in ReturnStatement/BreakStmt/ContinueStmt, and a true flag in ReturnStatement.Evaluate is returned only with a nil error; (M4) RuleEntity.Execute maps the zero reflect.Value to a nil interface; and nil is handed up only for that zero value, v.Interface() otherwise; (M5) addResult holds g.lock around the map write and is the only writer of the map; (M6) in IfStmt.Evaluate a true condition evaluates its branch and an existing else runs when all conditions are false, and in ForStmt.Evaluate and ForRangeStmt.Evaluate every pass of the loop evaluates the body, so a `return` placed in a branch or a loop body is reached. (M7) every pool method returns the result map it read from the acquired engine after that engine's call. Not decided: the values themselves.",
 		Assumptions: []string{"reflect, sync and the Go memory model behave as documented", "the host does not write Gengine.returnResult (unexported)"},
 		Trusted:     commonTrusted,
 	})
@@ -54,5 +54,11 @@ func init() {
 		c.ruleS4("M6-body-evaluated")
 		c.only = nil
 		c.Min("M6-body-evaluated", 5)
+		// the pool hands its caller the map of this very call: read from the acquired engine after the engine
+		// call and before the instance is released (the own-result slots of the request life cycle, C06-P2)
+		c.only = func(key string) bool { return strings.HasSuffix(key, "-own-result") }
+		c.ruleLifecycle("M7-pool-returns-this-calls-map", nil)
+		c.only = nil
+		c.Min("M7-pool-returns-this-calls-map", 24)
 	}
 }
